@@ -138,7 +138,12 @@ def run(ctx):
     for j in range(npairs):
         cfg = lc.gen_config(rng)
         cfg["nsteps"] = rng.randint(15, 40)
-        if cfg["kind"] == "bayes":
+        if j % 3 == 0:
+            # the Bayesian model must see the same data either way, also while other trials are still running
+            cfg.update(kind="bayes", W=rng.choice([2, 3]), max_trials=rng.choice([6, 7, 8]), nsteps=45, max_retries=0, max_consec=9)
+        elif j % 3 == 1:
+            cfg.update(kind="hyperband", W=rng.choice([2, 3, 4]), max_trials=None, max_epochs=rng.choice([4, 9]), factor=rng.choice([2, 3]), iterations=1, nsteps=60)
+        if cfg["kind"] == "bayes" and j % 3 != 0:
             cfg["max_trials"] = rng.choice([4, 5, 6]); cfg["nsteps"] = 30
         msg, ha = sym_pair(ctx, cfg)
         stats["sym_pairs"] += 1
